@@ -140,7 +140,7 @@ def harness_stream(e, prog, job, st):
     for ch in letters:
         if ch == 'G':
             raise PathEnd()     # the grapheme oracle is nondeterministic: its answers in the two runs need not agree (stream-only properties are checked below for G in a separate job kind)
-        filt = P.mk_struct(prog, 'KyteaWsConstFilter', char_type=Int(P.TYPE_CODE[ch], 8))
+        filt = P.wsconst_filter(e, prog, ch)
         e.run(hlib.fn(prog, 'KyteaWsConstFilter', 'filter', 'SentenceFilter'), [Ref(Cell(filt)), Ref(cell)])
     labels = S.seq_vals(S.call(e, prog, 'Sentence', 'boundaries', [Ref(cell)]))
     L = [e.concretize(l) for l in labels]
